@@ -38,6 +38,65 @@ def body_of(fn: Any) -> List[ast.stmt]:
     return [s for s in fn.body if not (isinstance(s, ast.Expr) and isinstance(s.value, ast.Constant))]
 
 
+def expand_trig_helpers(ctx: Any, mt: Any, qual: str, body: List[ast.stmt]) -> List[ast.stmt]:
+    """`sin, cos = _helper(angle)`: inline a module-level helper (parameter substituted, locals renamed) so that the algebra sees
+    math.sin / math.cos of math.radians(angle) again.  A helper that *adjusts* the values it computed - a branch on a quantity derived from
+    sin()/cos() - is reported: the matrix entries are then not the Source formula for every real angle (C04 quantifies over angles within
+    1e-12..1e-3 of the poles, where a snapping threshold bites)."""
+    out: List[ast.stmt] = []
+    for st in body:
+        call = st.value if isinstance(st, ast.Assign) and isinstance(st.value, ast.Call) else None
+        name = call.func.id if call is not None and isinstance(call.func, ast.Name) else None
+        if name is None or not mt.has_func(name) or len(call.args) != 1 or call.keywords:
+            out.append(st)
+            continue
+        h = mt.func(name)
+        if len(h.args.args) != 1:
+            out.append(st)
+            continue
+        param = h.args.args[0].arg
+        hbody = body_of(h)
+        trig: set = set()
+        for a in ast.walk(h):
+            if isinstance(a, ast.Assign) and isinstance(a.targets[0], ast.Name):
+                srcs = {x.id for x in ast.walk(a.value) if isinstance(x, ast.Name)}
+                if any(isinstance(c, ast.Call) and (dotted(c.func) or '').split('.')[-1] in ('sin', 'cos', 'tan') for c in ast.walk(a.value)) or srcs & trig:
+                    trig.add(a.targets[0].id)
+        locals_ = {t.id for a in ast.walk(h) if isinstance(a, ast.Assign) for t in ast.walk(a.targets[0]) if isinstance(t, ast.Name)}
+
+        class _Sub(ast.NodeTransformer):
+            def visit_Name(self, node: ast.Name) -> ast.AST:
+                if node.id == param:
+                    return ast.copy_location(ast.parse(ast.unparse(call.args[0]), mode='eval').body, node)
+                if node.id in locals_:
+                    return ast.copy_location(ast.Name(id=f'_{name}_{node.id}', ctx=node.ctx), node)
+                return node
+        ret_expr = None
+        for hs in hbody:
+            if isinstance(hs, ast.If):
+                looks = {x.id for x in ast.walk(hs.test) if isinstance(x, ast.Name)} & trig
+                if looks:
+                    ctx.check('C04.A1', False, mt, hs, f'{qual} takes its sine/cosine from {name}(), which replaces the values it computed when `{ast.unparse(hs.test)[:60]}`: for angles that close to a multiple of 90 degrees the '
+                              'matrix is that of the exact multiple, not of the angle given (entries off by up to the threshold; a vector of length 1e6 moves by about 1 unit)', func=name, text=f'{name}: trig values adjusted under a threshold')
+                    continue
+                raise AnalysisError(f'{name}: branch `{ast.unparse(hs.test)[:50]}` in a trig helper is not modelled')
+            if isinstance(hs, ast.Return):
+                ret_expr = hs.value
+                break
+            if isinstance(hs, ast.Assign):
+                new = _Sub().visit(ast.parse(ast.unparse(hs)).body[0])
+                ast.copy_location(new, st)
+                out.append(ast.fix_missing_locations(new))
+                continue
+            raise AnalysisError(f'{name}: statement kind {type(hs).__name__} in a trig helper is not modelled')
+        if ret_expr is None:
+            raise AnalysisError(f'{name}: no return value')
+        fin = ast.Assign(targets=st.targets, value=_Sub().visit(ast.parse(ast.unparse(ret_expr), mode='eval').body))
+        ast.copy_location(fin, st)
+        out.append(ast.fix_missing_locations(fin))
+    return out
+
+
 def entries_from_env(env: Dict[str, Any], prefix: str) -> Dict[str, Poly]:
     out = {}
     for s in SLOTS:
@@ -173,12 +232,26 @@ def run(ctx: Any, prog: Program) -> None:
         ctx.check('C04.A3', got == want, mt, vr, f'_vec_rot component {c}: got {got!r}, row-vector product is {want!r}', text=f'_vec_rot[{c}]')
     # transpose
     tr = mt.func('MatrixBase.transpose')
-    res = PolyInterp(ROLES.get, lambda k: ('M_' + k[6:]) if k.startswith('self._') and k[6:] in SLOTS else k, filename=mt.relpath,
-                     call_hook=lambda n, a: Poly.sym('<obj>') if (dotted(n.func) or '').endswith('__new__') or dotted(n.func) == 'type' else None
-                     ).run(body_of(tr))
+    raw_args: List[Any] = []
+
+    def tr_hook(n: ast.Call, a: List[Any]) -> Any:
+        d = ast.unparse(n.func)
+        if d.endswith('._from_raw'):        # `return type(self)._from_raw(<nine entries in row order>)`: wait for the evaluated arguments
+            if len(a) == 9:
+                raw_args[:] = a
+                return Poly.sym('<obj>')
+            return None
+        if d.endswith('__new__') or d == 'type':
+            return Poly.sym('<obj>')
+        return None
+    tr_hook.wants_args = True      # type: ignore[attr-defined]
+    res = PolyInterp(ROLES.get, lambda k: ('M_' + k[6:]) if k.startswith('self._') and k[6:] in SLOTS else k, filename=mt.relpath, call_hook=tr_hook).run(body_of(tr))
     if len(res) != 1:
         raise AnalysisError('transpose is not straight-line')
-    T = entries_from_env(res[0].env, 'rot._')
+    if raw_args and all(isinstance(x, Poly) for x in raw_args) and 'rot._aa' not in res[0].env:
+        T = dict(zip(SLOTS, raw_args))
+    else:
+        T = entries_from_env(res[0].env, 'rot._')
     for i in IDX:
         for j in IDX:
             ctx.check('C04.A3', T[i + j] == Poly.sym(f'M_{j}{i}'), mt, tr, f'transpose entry {i}{j} must be the source entry {j}{i}; got {T[i + j]!r}', text=f'transpose[{i}{j}]')
@@ -205,7 +278,7 @@ def run(ctx: Any, prog: Program) -> None:
 
     def single(name: str) -> Dict[str, Poly]:
         fn = mt.func('MatrixBase.' + name)
-        r = PolyInterp(ROLES.get, filename=mt.relpath, call_hook=hook_new).run(body_of(fn))
+        r = PolyInterp(ROLES.get, filename=mt.relpath, call_hook=hook_new).run(expand_trig_helpers(ctx, mt, 'MatrixBase.' + name, body_of(fn)))
         if len(r) != 1:
             raise AnalysisError(f'{name} is not straight-line code')
         return entries_from_env(r[0].env, 'rot._')
@@ -214,7 +287,7 @@ def run(ctx: Any, prog: Program) -> None:
 
     def fa_branch(test: ast.AST) -> List[bool]:
         return [True, False]
-    paths = [r for r in PolyInterp(ROLES.get, filename=mt.relpath, call_hook=hook_new, branch=fa_branch).run(body_of(fa)) if r.ret is not None]
+    paths = [r for r in PolyInterp(ROLES.get, filename=mt.relpath, call_hook=hook_new, branch=fa_branch).run(expand_trig_helpers(ctx, mt, 'MatrixBase.from_angle', body_of(fa))) if r.ret is not None]
     if not paths:
         raise AnalysisError('from_angle: no returning path found')
     product = mat_product(form, mat_product(form, Mr, Mp), My)
@@ -690,6 +763,10 @@ def analyse_to_angle(ctx: Any, rule: str, relpath: str, qual: str, body: List[as
 
 
 MUTANTS = [
+    {'id': 'trig_values_snapped_in_helper', 'file': 'math.py', 'find': "        rad_yaw = math.radians(yaw)\n        sin = math.sin(rad_yaw)\n        cos = math.cos(rad_yaw)\n", 'replace': "        sin, cos = _sin_cos(yaw)\n", 'extra': [{'file': 'math.py', 'find': "def format_float(x: float, places: int = 6) -> str:", 'replace': "def _sin_cos(degrees: float) -> 'tuple[float, float]':\n    rad = math.radians(degrees)\n    sin = math.sin(rad)\n    cos = math.cos(rad)\n    if abs(sin) < 1e-6:\n        return 0.0, math.copysign(1.0, cos)\n    return sin, cos\n\n\ndef format_float(x: float, places: int = 6) -> str:"}], 'expect': 'C04.A1'},
+    {'id': 'trig_values_through_plain_helper', 'file': 'math.py', 'find': "        rad_yaw = math.radians(yaw)\n        sin = math.sin(rad_yaw)\n        cos = math.cos(rad_yaw)\n", 'replace': "        sin, cos = _sin_cos(yaw)\n", 'extra': [{'file': 'math.py', 'find': "def format_float(x: float, places: int = 6) -> str:", 'replace': "def _sin_cos(degrees: float) -> 'tuple[float, float]':\n    rad = math.radians(degrees)\n    return math.sin(rad), math.cos(rad)\n\n\ndef format_float(x: float, places: int = 6) -> str:"}], 'expect': None},
+    {'id': 'transpose_from_raw_one_pair_unswapped', 'file': 'math.py', 'find': "        cls = type(self)\n        rot = cls.__new__(cls)\n\n        rot._aa, rot._ab, rot._ac = self._aa, self._ba, self._ca\n        rot._ba, rot._bb, rot._bc = self._ab, self._bb, self._cb\n        rot._ca, rot._cb, rot._cc = self._ac, self._bc, self._cc\n\n        return rot", 'replace': "        return type(self)._from_raw(\n            self._aa, self._ba, self._ca,\n            self._ab, self._bb, self._bc,\n            self._ac, self._bc, self._cc,\n        )", 'expect': 'C04.A3'},
+    {'id': 'transpose_from_raw_correct', 'file': 'math.py', 'find': "        cls = type(self)\n        rot = cls.__new__(cls)\n\n        rot._aa, rot._ab, rot._ac = self._aa, self._ba, self._ca\n        rot._ba, rot._bb, rot._bc = self._ab, self._bb, self._cb\n        rot._ca, rot._cb, rot._cc = self._ac, self._bc, self._cc\n\n        return rot", 'replace': "        return type(self)._from_raw(\n            self._aa, self._ba, self._ca,\n            self._ab, self._bb, self._cb,\n            self._ac, self._bc, self._cc,\n        )", 'expect': None},
     {'id': 'inverse_first_nonzero_pivot', 'file': 'math.py', 'find': "                va: float = abs(mat_l[m][n])\n\n                if va > la:\n                    pivrow = m\n                    la = va\n", 'replace': "                if mat_l[m][n] != 0.0:\n                    pivrow = m\n                    break\n", 'expect': 'C04.A8'},
     {'id': 'mat_mul_rowwise_again', 'file': 'math.py', 'find': "        (\n            self._aa, self._ab, self._ac,\n            self._ba, self._bb, self._bc,\n            self._ca, self._cb, self._cc,\n        ) = (\n            self._aa * other._aa + self._ab * other._ba + self._ac * other._ca,\n            self._aa * other._ab + self._ab * other._bb + self._ac * other._cb,\n            self._aa * other._ac + self._ab * other._bc + self._ac * other._cc,\n", 'replace': "        self._aa, self._ab, self._ac = (\n            self._aa * other._aa + self._ab * other._ba + self._ac * other._ca,\n            self._aa * other._ab + self._ab * other._bb + self._ac * other._cb,\n            self._aa * other._ac + self._ab * other._bc + self._ac * other._cc,\n        )\n        (\n            self._ba, self._bb, self._bc,\n            self._ca, self._cb, self._cc,\n        ) = (\n", 'expect': 'C04.A7'},
     {'id': 'cython_imatmul_copies_operand', 'file': '_math.pyx', 'find': "        if mat_check(other):\n            mat_mul(self.mat, (<MatrixBase>other).mat)\n            return self", 'replace': "        if mat_check(other):\n            memcpy(temp, (<MatrixBase>other).mat, sizeof(mat_t))\n            mat_mul(self.mat, temp)\n            return self", 'expect': None, 'repairs': ['Matrix.__imatmul__']},
